@@ -21,7 +21,46 @@ func init() { engines["janitor"] = runJanitor }
 
 const maxYield = 1 << 22
 
+// The janitor's time source is whatever the library registered with the shim
+// since the last ResetTickers: a ticker, or a timer / time.After channel that is
+// re-armed or replaced for every pass. "Armed" sources can still deliver a tick.
+func armedSources() []*vshim.FakeTicker {
+	var out []*vshim.FakeTicker
+	for _, t := range vshim.Tickers() {
+		if t.Armed() {
+			out = append(out, t)
+		}
+	}
+	return out
+}
+
 func waitTicker(n int) []*vshim.FakeTicker {
+	for i := 0; i < maxYield; i++ {
+		if t := armedSources(); len(t) >= n {
+			return t
+		}
+		runtime.Gosched()
+	}
+	return armedSources()
+}
+
+// janFire delivers one tick to every armed source (waiting until each has room
+// for it) and reports whether at least one was delivered.
+func janFire(maxY int) bool {
+	src := waitTickerY(1, maxY)
+	if len(src) == 0 {
+		return false
+	}
+	for _, s := range src {
+		if !s.FireWait(maxY) {
+			return false
+		}
+	}
+	return true
+}
+
+// waitRegistered waits for n time sources registered since ResetTickers, armed or not.
+func waitRegistered(n int) []*vshim.FakeTicker {
 	for i := 0; i < maxYield; i++ {
 		if t := vshim.Tickers(); len(t) >= n {
 			return t
@@ -29,6 +68,59 @@ func waitTicker(n int) []*vshim.FakeTicker {
 		runtime.Gosched()
 	}
 	return vshim.Tickers()
+}
+
+func waitTickerY(n, maxY int) []*vshim.FakeTicker {
+	for i := 0; i < maxY; i++ {
+		if t := armedSources(); len(t) >= n {
+			return t
+		}
+		runtime.Gosched()
+	}
+	return armedSources()
+}
+
+// janDeliver = janFire, and for one-shot sources wait until the janitor has come
+// back to wait (a source is armed again).
+func janDeliver(maxY int) bool {
+	src := waitTickerY(1, maxY)
+	if len(src) == 0 {
+		return false
+	}
+	oneShots := 0
+	for _, s := range src {
+		if !s.FireWait(maxY) {
+			return false
+		}
+		if s.IsOneShot() {
+			oneShots++
+		}
+	}
+	if oneShots > 0 {
+		return len(waitTickerY(len(src), maxY)) >= len(src)
+	}
+	return true
+}
+
+// janTickFlush delivers a tick and two more "flush" ticks at the same instant.
+// A ticker channel has capacity 1: when the third tick is accepted the janitor
+// has received the second, i.e. finished the pass of the first. A timer-driven
+// janitor re-arms once per loop iteration: when it has re-armed for the second
+// time, the pass of the first tick is complete whichever way round it re-arms
+// and sweeps.
+func janTickFlush(maxY int) bool {
+	return janDeliver(maxY) && janDeliver(maxY) && janDeliver(maxY)
+}
+
+// janFireNoWait offers one tick to every armed source without waiting.
+func janFireNoWait() int {
+	n := 0
+	for _, s := range armedSources() {
+		if s.Fire() {
+			n++
+		}
+	}
+	return n
 }
 
 // settle gives goroutines that would create a ticker the chance to do so
@@ -128,8 +220,9 @@ func runJanitorCase(res *result, r rng, jc janCase, idx int64) {
 			return
 		}
 		settle()
-		if tks = vshim.Tickers(); len(tks) != 1 {
+		if tks = armedSources(); len(tks) != 1 {
 			bad("more than one janitor ticker", fmt.Sprintf("%d tickers registered", len(tks)))
+			return
 		}
 		tk := tks[0]
 		if tk.Period != jc.interval {
@@ -187,7 +280,7 @@ func runJanitorCase(res *result, r rng, jc janCase, idx int64) {
 			vshim.SetVNow(now)
 			// deliver tick t, then two more "flush" ticks at the same instant: when the
 			// third is accepted, the pass triggered by the first has completed
-			ok := tk.FireWait(maxYield) && tk.FireWait(maxYield) && tk.FireWait(maxYield)
+			ok := janTickFlush(maxYield)
 			if !ok {
 				bad("janitor does not consume ticks", fmt.Sprintf("tick %d at +%d not accepted within %d yields", t, now-epoch, maxYield))
 				return
@@ -220,9 +313,7 @@ func runJanitorCase(res *result, r rng, jc janCase, idx int64) {
 		// final: exactly the unexpired remain (all expiries are far from `now` or in the past by > 0)
 		vshim.SetVNow(now + int64(jc.interval))
 		now += int64(jc.interval)
-		for i := 0; i < 3; i++ {
-			tk.FireWait(maxYield)
-		}
+		janTickFlush(maxYield)
 		want := 0
 		wantCb := map[any]int{}
 		for _, e := range ents {
@@ -352,7 +443,7 @@ func runLifetime(res *result, r rng, idx int64) {
 			}
 		}
 	}()
-	tks := waitTicker(n)
+	tks := waitRegistered(n)
 	if len(tks) != n {
 		bad("janitor count differs from caches created with a positive interval", fmt.Sprintf("%d caches, %d tickers", n, len(tks)))
 		return
@@ -365,7 +456,7 @@ func runLifetime(res *result, r rng, idx int64) {
 		settle()
 		stopped := 0
 		for _, t := range tks {
-			if t.Stopped() {
+			if t.Stopped() || t.IsOneShot() {
 				stopped++
 			}
 		}
@@ -376,8 +467,11 @@ func runLifetime(res *result, r rng, idx int64) {
 	}
 	res.count("caches_dropped", int64(n-1))
 	res.max("max_gc_cycles_until_released", int64(cycles))
-	stopped := 0
+	stopped, periodic := 0, true
 	for _, t := range tks {
+		if t.IsOneShot() {
+			periodic = false // a timer that is never stopped is not a leak; goroutines and memory decide
+		}
 		if t.Stopped() {
 			stopped++
 		}
@@ -388,7 +482,7 @@ func runLifetime(res *result, r rng, idx int64) {
 		res.count("janitors_observed_to_exit", int64(stopped))
 	}
 	// the cache that is still referenced keeps its janitor and its contents
-	if stopped > n-1 {
+	if periodic && stopped > n-1 {
 		bad("janitor of a cache that is still referenced was stopped", fmt.Sprintf("%d of %d tickers stopped while one cache is alive", stopped, n))
 	}
 	if keep.Count() != 3 {
@@ -447,7 +541,7 @@ func janitorPair(res *result, flavor string) {
 	vshim.ResetGStep()
 	vshim.SetMode(vshim.MGlobal | vshim.MCount | vshim.MPoll)
 	vshim.SetVNow(epoch + int64(interval))
-	okc := tk0.FireWait(maxYield) && tk0.FireWait(maxYield) && tk0.FireWait(maxYield)
+	okc := janTickFlush(maxYield)
 	L := vshim.GStep()
 	vshim.SetMode(0)
 	runtime.KeepAlive(c0)
@@ -468,7 +562,7 @@ func janitorPair(res *result, flavor string) {
 		now := epoch + int64(interval)
 		vshim.SetVNow(now)
 		vshim.ArmPark(N)
-		if !tk.FireWait(maxYield) {
+		if !janFire(maxYield) {
 			vshim.ArmPark(0)
 			vshim.SetMode(0)
 			continue
@@ -505,7 +599,7 @@ func janitorPair(res *result, flavor string) {
 		for t := 0; t < 3 && ok; t++ {
 			now += int64(interval)
 			vshim.SetVNow(now)
-			ok = tk.FireWait(maxYield) && tk.FireWait(maxYield) && tk.FireWait(maxYield)
+			ok = janTickFlush(maxYield)
 		}
 		vshim.SetMode(0)
 		bad := func(sig, msg string) {
